@@ -272,18 +272,36 @@ def build_comprehension(ip, node, g, it, fr):
         found = (FV, FE, bool(errs), (EV, EK, params))
         remember(("comp", m), [cval, ckeep, cerr], params, found)
     FV, FE, may_err, (EV, EK, f_params) = found
+    no_err = False
     if errs:
+        # pointwise discharge: if, for an arbitrary index j in range, the element expression cannot raise under the path
+        # condition and the known quantified facts instantiated at j, no element raises and the comprehension is a map
+        n_len0 = z3.Length(seqs[0])
+        for sq in seqs[1:]:
+            n_len0 = z3.If(z3.Length(sq) < n_len0, z3.Length(sq), n_len0)
+        jj = V.fresh("ej", V.I)
+        EE_at = z3.substitute(err, *([(es[c], seqs[c][jj]) for c in range(m)] + [(idx, jj)]))
+        sv = z3.Solver()
+        sv.set("timeout", 3000)
+        sv.add(*ip.path.pc)
+        sv.add(jj >= 0, jj < n_len0, *ip.path.instances(jj))
+        keep_at = z3.substitute(z3.simplify(keep_cond), *([(es[c], seqs[c][jj]) for c in range(m)] + [(idx, jj)]))
+        sv.add(z3.Or(EE_at != 0, z3.Not(keep_at)) if not g.ifs else EE_at != 0)
+        no_err = sv.check() == z3.unsat
         code = FE(*seqs, z3.IntVal(0), *caps)
-        ip.guard([(k, code == KIND_CODE[k]) for k in errs])
+        if not no_err:
+            ip.guard([(k, code == KIND_CODE[k]) for k in errs])
+        else:
+            ip.path.notes.append("comprehension element errors excluded pointwise")
         ip.path.assume(code == 0)
     result = FV(*seqs, z3.IntVal(0), *caps)
-    is_map = not g.ifs and not errs
+    is_map = not g.ifs and (not errs or no_err)
     if is_map:
         n_len = z3.Length(seqs[0])
         for sq in seqs[1:]:
             n_len = z3.If(z3.Length(sq) < n_len, z3.Length(sq), n_len)
         elem_at = lambda j: EV(*[seqs[c][j] for c in range(m)], j, *caps)
-        _emit_map_lemma(ip, FV, EV, EK, m, f_params)
+        _emit_map_lemma(ip, FV, EV, EK, m, f_params, keep_proved_pointwise=bool(errs))
         ip.path.assume(z3.Length(result) == n_len)
         ip.path.add_qfact(lambda j: z3.Implies(z3.And(j >= 0, j < n_len), result[j] == elem_at(j)))
     return LList(None, result)
@@ -292,7 +310,7 @@ def build_comprehension(ip, node, g, it, fr):
 _TPL = {}
 
 
-def _emit_map_lemma(ip, FV, EV, EK, m, f_params):
+def _emit_map_lemma(ip, FV, EV, EK, m, f_params, keep_proved_pointwise=False):
     """Pointwise characterisation of a map comprehension (no filter, no element error):
          L(i):  len(F(xs, i)) = max(0, n - i)   and   for 0 <= j < n - i:  F(xs, i)[j] = Elt(xs[i + j], i + j)
     proved by induction on the start index (downwards): the step VC assumes L(i + 1) instantiated at j - 1 and proves
@@ -329,8 +347,8 @@ def _emit_map_lemma(ip, FV, EV, EK, m, f_params):
                             F(li)[lj] == e_at(li + lj), kind="lemma")
         ip.path.obligations += [base, unfold, s_len, s_head, s_tail]
     name = FV.name()
-    if name in LEMMAS_EMITTED:
-        return
+    if name in LEMMAS_EMITTED or keep_proved_pointwise:
+        return          # (keep-condition already shown for an arbitrary element under the path condition)
     LEMMAS_EMITTED.add(name)
     e0 = [z3.Const(f"lm_e{c}", V.Val) for c in range(m)]
     ip.path.obligations.append(Obligation(f"lemma:{name}#keep-valid", [], EK(*e0, z3.Int("lm_i"), *f_params), kind="lemma"))
